@@ -47,7 +47,7 @@ class PatchVariant(Variant):
 
 
 MECH_TRANSFORMS = ('unparse', 'rename', 'swapeq', 'flipif', 'logging', 'yieldfrom', 'fstring', 'elsereturn', 'ifexp', 'augexpand',
-                   'tmpvar', 'all', 'kwargs', 'cachelocal', 'structconst', 'boolwrap', 'all2', 'renamepriv')
+                   'tmpvar', 'all', 'kwargs', 'cachelocal', 'structconst', 'boolwrap', 'all2', 'renamepriv', 'absimports', 'aliasimports', 'nosix', 'reorder', 'annotate', 'tryfinally')
 
 
 class MechVariant(Variant):
